@@ -97,6 +97,7 @@ def _(c):
     c.returns(List(Ref("ConsumerRecordObj")))
     c.local("ret_list", List(Ref("ConsumerRecordObj")))
     c.requires("self._partition_records is not None", "result-not-exhausted")
+    c.requires("max_records is None or max_records >= 1", "max-records-positive")
     c.modifies("self._partition_records", "TPState._position", "PartitionRecords.next_fetch_offset",
                "PartitionRecords._aborted_transactions", "PartitionRecords._aborted_producers")
     step = dict(NEXT_MODEL)
@@ -116,7 +117,9 @@ def _(c):
          " and ret_list[k].g_offset < self._partition_records.next_fetch_offset))"
          " and forall(lambda j, k: implies(0 <= j < k < len(ret_list), ret_list[j].g_offset < ret_list[k].g_offset))" % POS0),
         ("cursor-never-behind-the-position", "self._partition_records.next_fetch_offset >= " + POS0),
+        ("below-max-records", "max_records is None or len(ret_list) < max_records"),
     ])
+    c.ensures("at-most-max-records", "max_records is None or len(result) <= max_records")
     c.ensures("returned-only-through-the-gate", "implies(len(result) > 0, old(" + GATE + "))")
     c.ensures("gate-closed-nothing-happens", "implies(not old(" + GATE + "), len(result) == 0 and same_heap('TPState'))")
     c.ensures("records-in-offset-order-from-the-position",
